@@ -117,6 +117,10 @@ func (P *Program) interpreted(pkg *types.Package) bool {
 	switch pkg.Path() {
 	case gldapPath, testdirPath, berPath:
 		return true
+	case "sync/atomic":
+		return true // typed wrappers (atomic.Int32 ...) over the function intrinsics
+	case "encoding/binary", "math/bits":
+		return true // pure Go; binary.Read / binary.Write stay intrinsics
 	}
 	return false
 }
